@@ -43,7 +43,9 @@ def term_obligations(run, cls):
         y, ex, calls, raises, fn, _ = run_membership(src, cls, ax, A, P, x)
         y2, ex2, _, _, _, _ = run_membership(src, cls, ax, A, P, x2)
         spec = tc.oracle(A, P, x)
-        axs = ax.axioms()
+        # SemiEllipse clamps the root's argument at zero: that the clamp is inactive on the support needs |x - c| <= r  =>  (x - c)^2 <= r^2, a valid fact
+        # of real arithmetic that nlsat finds only under some seeds - it is supplied as a hint (square_hints: valid lemmas, nothing is assumed)
+        axs = ax.axioms() + (ax.square_hints() if cls in ("SemiEllipse",) else [])
         uf = bool(ax.used)
         m = lambda d: dict(d, sat_final=not uf)
         add(Obl(f"{fq}/pre.sat", pre + axs, None, expect="sat", fn=fq))
@@ -84,6 +86,40 @@ DEFAULTS = {
 }
 
 
+# ------------------------------------------------------------------------------------------------ IEEE-754 spot obligations (DESIGN 4.6)
+def ieee_obligations(run):
+    """Arc and SemiEllipse COMPUTE a breakpoint (c = s + (e - s); r = (e - s) / 2, c = s + r) and take a square root of a difference of squares:
+    in exact reals the end points of the support select the arc branch and the root's argument is >= 0 there; in doubles a rounded c or a
+    rounded square can flip both.  The real body is evaluated in z3's Float64 theory at x = start and x = end."""
+    from pyvc.fpexec import FpExec, F64, fp, finite, tofloat
+    src = run.src
+    out = []
+    for cls in ("Arc", "SemiEllipse"):
+        fq = f"term.{cls}.membership"
+        fn = src.func("term", f"{cls}.membership")
+        st, en, h = z3.FP("start", F64), z3.FP("end", F64), z3.FP("height", F64)
+        valid = [finite(st), finite(en), z3.Not(z3.fpEQ(st, en)), z3.fpLEQ(fp(-1e6), st), z3.fpLEQ(st, fp(1e6)), z3.fpLEQ(fp(-1e6), en), z3.fpLEQ(en, fp(1e6)),
+                 z3.fpGEQ(z3.fpAbs(z3.fpSub(z3.RNE(), en, st)), fp(1e-6)), z3.fpGT(h, fp(0.0)), z3.fpLEQ(h, fp(1.0))]
+        for which, xv in (("start", st), ("end", en)):
+            rp = {"replay": {"module": "contracts.terms", "func": "replay_endpoints", "kwargs": {"cls": cls, "which": which}, "vars": {}, "fp": {"start": "start", "end": "end"}}, "sat_final": True}
+            try:
+                ex = FpExec({"start": st, "end": en, "height": h}, xv)
+                ex.run(fn)
+            except Unsupported as ex_:
+                out.append(undecided(f"{fq}/ieee.subset[x={which}]", f"outside the floating-point evaluator: {ex_}", fn=fq, meta=rp)); continue
+            sup = [(ln, g, c) for ln, g, c, has_sqrt in ex.wheres if has_sqrt]
+            out.append(static(f"{fq}/ieee.support_condition_found[x={which}]", len(sup) == 1 and len(ex.sqrts) >= 1, f"{len(sup)} np.where call(s) whose true branch takes a square root; {len(ex.sqrts)} np.sqrt call(s)", fn=fq))
+            for ln, g, c in sup:
+                o = Obl(f"{fq}/ieee.end_point_selects_the_arc_branch[x={which}]", valid + [g], c, fn=fq, meta=rp)
+                o.fpvars = {"start": st, "end": en}
+                out.append(o)
+            if run.tier == "thorough" or os.environ.get("PYVC_IEEE_SQRT"):
+                for ln, g, a in ex.sqrts:
+                    o = Obl(f"{fq}/ieee.sqrt_argument_is_not_negative[x={which}]", valid + [g], z3.And(z3.Not(z3.fpIsNaN(a)), z3.Not(z3.fpLT(a, fp(0.0)))), fn=fq, meta=dict(rp, best_effort=True))
+                    out.append(o)
+    return out
+
+
 def build(run):
     run.assume("A-REAL", "A-TF", "A-NP", "A-PY", "A-LIFT", "A-MSG")
     src = run.src
@@ -95,6 +131,11 @@ def build(run):
         run.add(term_obligations(run, cls))
     import props.C03_discrete as D
     D.build(run)
+    run.add(ieee_obligations(run))
+    # the end points of Arc / SemiEllipse for many parameter values, natively (bounded; finds what the expensive sqrt-argument obligations of the
+    # thorough tier decide)
+    run.bounded("term.Arc+SemiEllipse.membership/end_points.runtime", "contracts.terms", "replay_endpoints", [dict(cls=c, which=w, seed=run.seed, n=2000 if run.tier == "quick" else 40000) for c in ("Arc", "SemiEllipse") for w in ("start", "end")],
+                bound="2000 (quick) / 40000 (thorough) random valid (start, end, height) per class and end point, both directions, magnitudes 1e-3..1e6: the value at the end point is the documented one (Arc: 0 at start, height at end; SemiEllipse: 0 at both) within 1e-6*height, never NaN", first_failure=True)
 
 
 if __name__ == "__main__":
